@@ -55,7 +55,7 @@ pub open spec fn mono<T>(a: Heap, ga: G<T>, b: Heap, gb: G<T>) -> bool {
 }
 pub open spec fn up_rel<T>(a: Heap, ga: G<T>, b: Heap, gb: G<T>, c: Cap) -> bool { true }
 
-//@include env_up.rs OP=for_each TP=T G=G<T> GNAME=G HEAP=Heap I=T SFX="" UPF=up EVGUARD=true SUBPOST=true SUBPRE=true
+//@include env_up.rs OP=for_each TP=T G=G<T> GNAME=G HEAP=Heap I=T SFX="" UPF=up EVGUARD=true SUBPOST=true SUBPRE=true LATE=true
 
 /// `for_each(f)(source)`: the subscription itself
 #[verifier::exec_allows_no_decreases_clause]
@@ -101,6 +101,9 @@ pub fn world<T>(c: &Cap)
         invariant
             INV!(h, g@, *c),
     {
+        if ghost_test(Ghost(g@.up.phase == Up::Subscribing)) {
+            for_each__source_talkback(&mut h, &mut g, c, Message::Handshake(UpTb {}));   // a late greeting
+        }
         up_events(&mut h, &mut g, c);
     }
 }
